@@ -469,7 +469,7 @@ class Discharger:
             return True
         g = group_ref(x)
         if g is not None:
-            return not self.group_always_set(g)
+            return not self.group_always_set(g, ob)
         if k == "ite":
             return True if (self.maybe_none(x[2], Obligation(ob.kind, x[2], ob.facts + ((x[1], True),), ob.func, ob.summary, ob.node))
                             or self.maybe_none(x[3], Obligation(ob.kind, x[3], ob.facts + ((x[1], False),), ob.func, ob.summary, ob.node))) else False
@@ -543,11 +543,18 @@ class Discharger:
                 return "D17 attribute presence established by a dominating hasattr"
         return None
 
-    def group_always_set(self, g) -> bool:
+    def group_always_set(self, g, ob=None) -> bool:
         R, k = g
         key = (R, k)
         if key not in self._grp:
             pats = regex_patterns(self.ctx, R)
+            if pats is None and ob is not None and R[0] == "attr":
+                # the compiled pattern is an attribute of a value whose static type is a package class (a parameter, a local)
+                bt = self.ctx.ev.types.type_of(R[1], self.fe(ob.func))
+                if bt is not None and bt[0] == "inst":
+                    c0 = self.ctx.prog.classes.get(bt[1])
+                    if c0 is not None and c0.find_attr(R[2]) is None:
+                        pats = instance_attr_patterns(self.ctx, c0, R[2])
             ok = bool(pats)
             for p_ in pats or ():
                 mg = mandatory_groups(p_)
